@@ -310,11 +310,14 @@ def run(ctx):
     specs = [{
         "module": "checks.c10", "params": params,
         # (the scenario with many callers: the default schedule only - forty threads)
-        "bound": 0 if params.get("bound0") else (bound if in_core(params) else 1),
+        # thorough: two deviations for the quick-tier scenarios with a single call (the
+        # sequences of calls take one; measured: all of them at two take over 90 minutes)
+        "bound": 0 if params.get("bound0") else (
+            bound if in_core(params) and (ctx.quick or len(params["calls"]) == 1) else 1),
         "opts": {"time_horizon": 30.0, "drain": 2.0,
                  "max_points": 60000 if params.get("bound0") else 8000, "free_switch_cost": 1,
                      "time_jump_cost": None if ctx.quick else 1},
-        "budget": 3000 if ctx.quick else 20000,
+        "budget": 3000 if ctx.quick else 8000,
     } for params in scenario_params(ctx.tier)]
     ctx.pmap(H.shard, specs)
     H.finish(
